@@ -11,6 +11,9 @@ import VerifModel.Driver.Text
 import VerifModel.Driver.Args
 import VerifModel.Driver.Diagram
 import VerifModel.Driver.Nc
+import VerifModel.Driver.Fig
+import VerifModel.Driver.Prob
+import VerifModel.Driver.Dispatch
 /-
   verifdrv — line-protocol driver: one operation per input line, one canonical
   reply line.  `ERR bad-op` for anything a handler does not recognise.
@@ -18,7 +21,7 @@ import VerifModel.Driver.Nc
 open VerifModel
 
 def handlers : List (List String → Option String) :=
-  [Driver.Cmp.handle, Driver.Cont.handle, Driver.Det.handle, Driver.Data.handle, Driver.Clean.handle, Driver.Agg.handle, Driver.Scripts.handle, Driver.Axis.handle, Driver.Output.handle, Driver.Text.handle, Driver.Args.handle, Driver.Diagram.handle, Driver.Nc.handle]
+  [Driver.Cmp.handle, Driver.Cont.handle, Driver.Det.handle, Driver.Data.handle, Driver.Clean.handle, Driver.Agg.handle, Driver.Scripts.handle, Driver.Axis.handle, Driver.Output.handle, Driver.Text.handle, Driver.Args.handle, Driver.Diagram.handle, Driver.Nc.handle, Driver.Fig.handle, Driver.Prob.handle, Driver.Dispatch.handle]
 
 def step (line : String) : String :=
   let args := (line.trimAscii.toString.splitOn " ").filter (· ≠ "")
